@@ -1149,7 +1149,35 @@ fn c10_inner(cx: &mut Cx, net: &mut RealNet, n: usize) -> Option<()> {
         Some(())
     };
     judge(cx, net, "running")?;
-    // torn down and restarted: the payments received survive
+    // torn down and restarted: the payments received survive. The node persists the count in a spawned task; the
+    // teardown waits until the file shows it (a teardown before that is a crash before the write completed, which
+    // the statement does not cover)
+    let persisted = |root: &std::path::Path| -> Option<usize> {
+        let mut stack = vec![root.to_path_buf()];
+        while let Some(d) = stack.pop() {
+            for e in std::fs::read_dir(&d).into_iter().flatten().flatten() {
+                let p = e.path();
+                if p.is_dir() {
+                    stack.push(p);
+                } else if p.file_name().map(|n| n == "historic_quoting_metrics").unwrap_or(false) {
+                    if let Ok(b) = std::fs::read(&p) {
+                        if let Ok((c, _)) = rmp_serde::from_slice::<(usize, std::time::SystemTime)>(&b) {
+                            return Some(c);
+                        }
+                    }
+                }
+            }
+        }
+        None
+    };
+    let t_flush = Instant::now();
+    while persisted(&net.nodes[t].root) != Some(paid_at_t) {
+        if t_flush.elapsed() > SETTLE_WATCHDOG {
+            cx.count("realnet:abandoned:payment-count-not-on-disk-before-the-teardown");
+            return None;
+        }
+        std::thread::sleep(Duration::from_millis(50));
+    }
     net.crash(t);
     if let Err(e) = net.restart(t, FORM_WATCHDOG) {
         cx.count("realnet:abandoned:restart");
